@@ -494,3 +494,9 @@ func Emit(res *Result, known []Known, outPath string) int {
 		res.Property, res.Tier, res.Seed, res.Evaluations, res.DistinctNontrivial, res.Lines, res.KnownHits, len(res.Violations), res.WallS)
 	return code
 }
+
+// Registry holds every registered property check.
+var Registry = map[string]*Prop{}
+
+// Register adds a property check (called from the init of each props/cNN package).
+func Register(p *Prop) { Registry[p.ID] = p }
